@@ -24,7 +24,7 @@ fn hub_sync(local: &Path, hub: &Path) -> (Option<i32>, String) {
         Ok(o) => (o.status.code(), format!("{}{}", String::from_utf8_lossy(&o.stdout), String::from_utf8_lossy(&o.stderr))), Err(e) => (Some(-1), e.to_string()) }
 }
 pub fn scenarios() -> Vec<(&'static str, fn() -> Option<String>)> {
-    vec![("lands-the-tree-and-skips-what-is-there (C13)", sc_lands_and_skips), ("stale-listing-never-overwrites (C13)", sc_stale_listing)]
+    vec![("lands-the-tree-and-skips-what-is-there (C13)", sc_lands_and_skips), ("stale-listing-never-overwrites (C13)", sc_stale_listing), ("host-root-targets (C13)", sc_remote_targets)]
 }
 /// inode of every hub file: a Put publishes by rename, so a re-sent file gets a new inode (independent of message wording)
 fn inodes(r: &Path) -> BTreeMap<String, u64> {
@@ -55,6 +55,32 @@ fn sc_lands_and_skips() -> Option<String> {
         if let Some(p) = ino1.keys().find(|p| ino2.get(*p) != ino1.get(*p)) { return Some(format!("an immediate second hub-sync sent `{p}` again (its hub file was replaced) although nothing changed (C13)")); }
         None
     })();
+    let _ = std::fs::remove_dir_all(&d);
+    res
+}
+fn sc_remote_targets() -> Option<String> {
+    // `host:root` targets through an ssh stand-in (drops `-T host copia`, runs the real binary): the tree must land in ROOT -
+    // also when ROOT itself contains a colon - and nowhere else
+    use std::os::unix::fs::PermissionsExt;
+    let d = base("remote"); let (l, cwd, bin) = (d.join("local"), d.join("cwd"), d.join("bin"));
+    std::fs::create_dir_all(&cwd).ok()?; std::fs::create_dir_all(&bin).ok()?;
+    std::fs::write(bin.join("ssh"), "#!/bin/bash\nshift; shift; shift\nexec \"$COPIA_BIN\" \"$@\"\n").ok()?;
+    std::fs::set_permissions(bin.join("ssh"), std::fs::Permissions::from_mode(0o755)).ok()?;
+    put(&l, "a.txt", b"alpha"); put(&l, "d/b.txt", b"beta");
+    let b = std::env::var("COPIA_BIN").unwrap_or_default();
+    let mut res = None;
+    for root_name in ["hub-plain", "hub:v2", "backups/2026-09-25T10:00"] {
+        let h = d.join(root_name); std::fs::create_dir_all(&h).ok()?;
+        let out = Command::new(&b).arg("hub-sync").arg(&l).arg(format!("fakehost:{}", h.display())).current_dir(&cwd)
+            .env("PATH", format!("{}:{}", bin.display(), std::env::var("PATH").unwrap_or_default())).env("COPIA_BIN", &b).env("RUST_BACKTRACE", "0").stdin(Stdio::null()).output().ok()?;
+        let stray: Vec<String> = std::fs::read_dir(&cwd).map(|rd| rd.flatten().map(|e| e.file_name().to_string_lossy().into_owned()).collect()).unwrap_or_default();
+        if !stray.is_empty() { res = Some(format!("hub-sync to `fakehost:<dir>/{root_name}` created {stray:?} in the client's working directory: the target was not taken as host:root (C13)")); break; }
+        if out.status.code() == Some(0) {
+            let th = tree(&h);
+            for (p, v) in tree(&l) { if th.get(&p) != Some(&v) { res = Some(format!("hub-sync to `fakehost:<dir>/{root_name}` exited 0 but `{p}` is NOT on the hub under that root (C13)")); break; } }
+            if res.is_some() { break; }
+        }
+    }
     let _ = std::fs::remove_dir_all(&d);
     res
 }
